@@ -93,6 +93,7 @@ def _run_slices(cmd_of, cwd, env, wdir, tag):
 
 def run_native(tier, seed, wdir):
     t0 = time.time()
+    tier = "thorough"  # native execution is cheap (2 s): both tiers run the complete case list
     code, out = _native_build()
     if code != 0:
         return {"engine": "alias", "machinery_error": "the alias crate does not build: " + out[-1500:], "found": []}
